@@ -2,21 +2,37 @@ import Proofs.Machine.Run
 import Proofs.Machine.Total
 import Proofs.Machine.Claims
 /-!
-Compositionality of the line state machine (property C10).
+Compositionality of the line state machine (property C10): helper lemmas.
 
-`N m`: the *normal form* of a machine — everything that can influence what the machine does or
-writes from now on, and nothing else: the ghost fields are erased (`src` of every row, the line
-index `n`, `orderOk`), the rows already handed to the painter's output buffer are merged into the
-rows written (`out ++ buf`; the buffer is written before anything else can be), the plain-diff
-counter is clamped to its "not relevant" value, and two merge-conflict commit names are dropped
-where they are dead (they are always overwritten before they are read).
+`N m`, the *normal form* of a machine — everything that can influence what the machine does or writes
+from now on, and nothing else. The ghost fields are erased (`src` of every row and buffered line,
+the line index `n`, `orderOk`); the rows already handed to the painter's output buffer are merged
+into the rows written (`out ++ buf`: the buffer is always emitted before anything is written
+directly); the plain-diff counter is clamped to its "not relevant" value; two merge-conflict commit
+names are dropped where they are dead (`theirs` always, `ours` outside a conflict region: both are
+overwritten before they are read).
 
-`N_step`: `N (step (N m) l) = N (step m l)` — the machine is a function of its normal form.
-`P p m`: `p` prepended to the rows written; `step (P p m) l = P p (step m l)`.
+1. `N_step` … `cont_congr`: the machine is a function of its normal form:
+   `N a = N b → N (step a l) = N (step b l)`, for every handler, the chain, `step`, `runFrom`,
+   the tail of `consume`.
+2. `P p m` (`p` prepended to the rows written) commutes with everything: `step (P p m) l = P p (step m l)`
+   (`P_step` … `P_cont`): what is written later does not depend on what was written before.
+3. `SectionBoundary cfg sA d` and `boundary_step`: at a `diff ` line `d` met in state `sA`, the machine
+   after the line is — in normal form — the machine a fresh run has after `d`, with the rows of a
+   complete run ending in `sA` in front.
+4. `concat_sections_er` combines them with `runFrom_append`.
+5. `counter_idle`: outside plain diffs the `--- ` counter is never armed (reachable states).
 
-Proof idiom: every model function `f` gets a lemma `N (f m) = via f (N m)` where
-`via f k = N (f k)` is kept folded, so that `simp` can push `N` through a composition
-inside-out and terminates.
+Proof idiom. Every model function `f` gets a lemma `N (f m) = via f (N m)`, where `via f k = N (f k)`
+is kept folded so that `simp only` can push `N` inwards through a composition and terminates;
+a handler lemma `NR (h cfg (N m) l) = NR (h cfg m l)` is then: unfold, `nfields` (rewrite the fields of
+`N m` in the conditions, also inside `Decidable` instances), `split`, `npush`. Record updates written
+inline in the model are either matched by `↓` shape lemmas (`N_updStO`, …) or named (`setSt`, `minusUpd`,
+`pushMinus`, …) through a `…_eq` restatement of the handler proved by `rfl`. The `P` lemmas mirror this
+(`pfields`, `ppush`). When a model function changes, its `N_…`/`P_…` (and `idle_…`) lemmas are the ones to
+revisit; `pendingDiffName` also has an explicit description (`pendingRows`, `N_pendingDiffName_explicit`).
+Generated facts used: the first three names of `handlerOrder` (`step_diffLine`), `consumeTail`
+(`finish_rows`), `prepareToCount = none` (`counterIdle_stepInit`).
 -/
 set_option linter.unusedSimpArgs false
 set_option linter.unusedVariables false
@@ -2036,5 +2052,334 @@ theorem concat_sections_er (cfg : Cfg) (A : List L) (d : L) (B : List L) (sA : M
   refine ⟨m, a, b, ?_, ?_, h3, h4⟩
   · rw [run_eq_cont, cont_append, hA]; exact h1
   · unfold run; rw [hA]; exact h2
+
+-- ================================================================ the counter is idle outside plain diffs
+
+/-- the source is kept and an idle counter stays idle -/
+def Idle (m m' : M) : Prop := m'.source = m.source ∧ (m.counter ≤ -4096 → m'.counter ≤ -4096)
+
+theorem Idle.refl (m : M) : Idle m m := ⟨rfl, id⟩
+theorem Idle.trans {a b c : M} (h1 : Idle a b) (h2 : Idle b c) : Idle a c :=
+  ⟨h2.1.trans h1.1, fun h => h2.2 (h1.2 h)⟩
+/-- source and counter untouched -/
+theorem Idle.of_eq {m m' : M} (hs : m'.source = m.source) (hc : m'.counter = m.counter) : Idle m m' :=
+  ⟨hs, fun h => hc ▸ h⟩
+
+@[simp] theorem direct_source (m : M) (rows : List Row) : (direct m rows).source = m.source := by
+  unfold direct; split <;> rfl
+@[simp] theorem direct_counter (m : M) (rows : List Row) : (direct m rows).counter = m.counter := by
+  unfold direct; split <;> rfl
+@[simp] theorem writeGeneric_source (cfg : Cfg) (m : M) (t r : Str) : (writeGeneric cfg m t r).source = m.source := by
+  unfold writeGeneric; split <;> simp
+@[simp] theorem writeGeneric_counter (cfg : Cfg) (m : M) (t r : Str) : (writeGeneric cfg m t r).counter = m.counter := by
+  unfold writeGeneric; split <;> simp
+@[simp] theorem handleHeaderLine_source (cfg : Cfg) (m : M) (c : Bool) : (handleHeaderLine cfg m c).source = m.source := by
+  unfold handleHeaderLine; simp
+@[simp] theorem handleHeaderLine_counter (cfg : Cfg) (m : M) (c : Bool) : (handleHeaderLine cfg m c).counter = m.counter := by
+  unfold handleHeaderLine; simp
+@[simp] theorem pendingDiffName_source (cfg : Cfg) (m : M) : (pendingDiffName cfg m).source = m.source := by
+  unfold pendingDiffName; repeat' split
+  all_goals simp
+@[simp] theorem pendingDiffName_counter (cfg : Cfg) (m : M) : (pendingDiffName cfg m).counter = m.counter := by
+  unfold pendingDiffName; repeat' split
+  all_goals simp
+@[simp] theorem emitLineUnchanged_source (m : M) (l : L) : (emitLineUnchanged m l).source = m.source := by
+  unfold emitLineUnchanged; simp
+@[simp] theorem emitLineUnchanged_counter (m : M) (l : L) : (emitLineUnchanged m l).counter = m.counter := by
+  unfold emitLineUnchanged; simp
+@[simp] theorem shouldWriteGeneric_source (cfg : Cfg) (m : M) (l : L) : (shouldWriteGeneric cfg m l).2.source = m.source := by
+  unfold shouldWriteGeneric; split <;> simp
+@[simp] theorem shouldWriteGeneric_counter (cfg : Cfg) (m : M) (l : L) : (shouldWriteGeneric cfg m l).2.counter = m.counter := by
+  unfold shouldWriteGeneric; split <;> simp
+@[simp] theorem fileOpUpdate_source (m : M) (ev : FileEvent) (nm : Str) : (fileOpUpdate m ev nm).source = m.source := by
+  unfold fileOpUpdate; split <;> rfl
+@[simp] theorem fileOpUpdate_counter (m : M) (ev : FileEvent) (nm : Str) : (fileOpUpdate m ev nm).counter = m.counter := by
+  unfold fileOpUpdate; split <;> rfl
+@[simp] theorem fileOpFinish_source (cfg : Cfg) (m : M) (l : L) : (fileOpFinish cfg m l).2.source = m.source := by
+  unfold fileOpFinish; split <;> simp
+@[simp] theorem fileOpFinish_counter (cfg : Cfg) (m : M) (l : L) : (fileOpFinish cfg m l).2.counter = m.counter := by
+  unfold fileOpFinish; split <;> simp
+@[simp] theorem plusLineFinish_source (cfg : Cfg) (m : M) (l : L) : (plusLineFinish cfg m l).2.source = m.source := by
+  unfold plusLineFinish; repeat' split
+  all_goals simp
+@[simp] theorem plusLineFinish_counter (cfg : Cfg) (m : M) (l : L) : (plusLineFinish cfg m l).2.counter = m.counter := by
+  unfold plusLineFinish; repeat' split
+  all_goals simp
+@[simp] theorem paintMergeConflict_source (cfg : Cfg) (m : M) (mp : MergeParents) :
+    (paintMergeConflict cfg m mp).source = m.source := by
+  simp [paintMergeConflict, mcPaintOne]
+@[simp] theorem paintMergeConflict_counter (cfg : Cfg) (m : M) (mp : MergeParents) :
+    (paintMergeConflict cfg m mp).counter = m.counter := by
+  simp [paintMergeConflict, mcPaintOne]
+
+theorem idle_handleCommitMeta {cfg : Cfg} {m m' : M} {l : L} {b : Bool}
+    (e : handleCommitMeta cfg m l = .ok (b, m')) : Idle m m' := by
+  unfold handleCommitMeta at e
+  repeat' split at e
+  all_goals (cases e; exact Idle.of_eq (by simp) (by simp))
+
+/-- the standard closing step: the result is named, source and counter are those of the input -/
+macro "idle_eq" : tactic => `(tactic| (first | exact Idle.refl _ | exact Idle.of_eq (by simp) (by simp)))
+
+theorem idle_handleDiffHeaderDiff {cfg : Cfg} {m m' : M} {l : L} {b : Bool}
+    (e : handleDiffHeaderDiff cfg m l = .ok (b, m')) : Idle m m' := by
+  unfold handleDiffHeaderDiff at e
+  repeat' split at e
+  all_goals (cases e; first | exact Idle.refl _ | exact Idle.of_eq (by simp [diffLineFields]) (by simp [diffLineFields]))
+
+theorem idle_of_pair {r : Bool × M} {b : Bool} {m m' : M} (e : (Except.ok r : Except String (Bool × M)) = .ok (b, m'))
+    (h : Idle m r.2) : Idle m m' := by
+  cases e; exact h
+
+theorem idle_handleFileOperation {cfg : Cfg} {m m' : M} {l : L} {b : Bool}
+    (e : handleFileOperation cfg m l = .ok (b, m')) : Idle m m' := by
+  unfold handleFileOperation at e
+  split at e
+  · cases e; exact Idle.refl _
+  · exact idle_of_pair e (Idle.of_eq (by simp) (by simp))
+
+theorem idle_handleMinusLine {cfg : Cfg} {m m' : M} {l : L} {b : Bool}
+    (e : handleMinusLine cfg m l = .ok (b, m')) : Idle m m' := by
+  rw [handleMinusLine_eq] at e
+  split at e
+  · cases e; exact Idle.refl _
+  · exact idle_of_pair e (Idle.of_eq (by simp [minusUpd]) (by simp [minusUpd]))
+
+theorem idle_handlePlusLine {cfg : Cfg} {m m' : M} {l : L} {b : Bool}
+    (e : handlePlusLine cfg m l = .ok (b, m')) : Idle m m' := by
+  rw [handlePlusLine_eq] at e
+  split at e
+  · cases e; exact Idle.refl _
+  · exact idle_of_pair e (Idle.of_eq (by simp [plusUpd]) (by simp [plusUpd]))
+
+theorem idle_handleHunkHeader {cfg : Cfg} {m m' : M} {l : L} {b : Bool}
+    (e : handleHunkHeader cfg m l = .ok (b, m')) : Idle m m' := by
+  unfold handleHunkHeader at e
+  split at e
+  · cases e; exact Idle.refl _
+  · split at e
+    · cases e; exact Idle.refl _
+    · cases e
+      refine ⟨rfl, fun h => ?_⟩
+      show hunkHeaderCounter m _ ≤ -4096
+      unfold hunkHeaderCounter
+      rw [if_neg (by omega)]; exact h
+
+theorem idle_handleModeLine {cfg : Cfg} {m m' : M} {l : L} {b : Bool}
+    (e : handleModeLine cfg m l = .ok (b, m')) : Idle m m' := by
+  unfold handleModeLine at e
+  repeat' split at e
+  all_goals (cases e; first | exact Idle.refl _ | exact Idle.of_eq rfl rfl)
+
+theorem idle_handleAdditionalCases {cfg : Cfg} {m m' : M} {l : L} {b : Bool} {to : State}
+    (e : handleAdditionalCases cfg m l to = .ok (b, m')) : Idle m m' := by
+  unfold handleAdditionalCases at e
+  split at e <;> (cases e; exact Idle.of_eq (by simp) (by simp))
+
+theorem idle_handleMisc {cfg : Cfg} {m m' : M} {l : L} {b : Bool}
+    (e : handleMisc cfg m l = .ok (b, m')) : Idle m m' := by
+  rw [handleMisc_eq] at e
+  split at e
+  · cases e; exact Idle.refl _
+  · split at e
+    · split at e
+      · cases e; exact Idle.of_eq (by simp) (by simp)
+      · cases e; exact Idle.of_eq rfl rfl
+    · exact idle_handleAdditionalCases e
+
+theorem idle_handleSubmoduleLog {cfg : Cfg} {m m' : M} {l : L} {b : Bool}
+    (e : handleSubmoduleLog cfg m l = .ok (b, m')) : Idle m m' := by
+  unfold handleSubmoduleLog at e
+  split at e
+  · cases e; exact Idle.refl _
+  · exact idle_handleAdditionalCases e
+
+theorem idle_handleSubmoduleShort {cfg : Cfg} {m m' : M} {l : L} {b : Bool}
+    (e : handleSubmoduleShort cfg m l = .ok (b, m')) : Idle m m' := by
+  rw [handleSubmoduleShort_eq] at e
+  repeat' split at e
+  all_goals (cases e; first | exact Idle.refl _ | exact Idle.of_eq (by simp [setSt]) (by simp [setSt]))
+
+theorem idle_emitHunkHeader {cfg : Cfg} {m m' : M} {hh : HunkHeader} {line raw : Str} {src : Nat}
+    (e : emitHunkHeader cfg m hh line raw src = .ok m') : Idle m m' := by
+  unfold emitHunkHeader at e
+  split at e
+  · cases e
+  · cases e; exact Idle.of_eq (by simp) (by simp)
+
+theorem idle_hunkLinePre {cfg : Cfg} {m m' : M} (e : hunkLinePre cfg m = .ok m') : Idle m m' := by
+  rw [hunkLinePre_eq] at e
+  have h0 : Idle m (preFlush cfg m) := by
+    unfold preFlush; split
+    · exact Idle.of_eq (by simp) (by simp)
+    · exact Idle.refl _
+  split at e
+  · exact h0.trans (idle_emitHunkHeader e)
+  · cases e; exact h0
+
+theorem idle_pushMinus (x : M) (h : HLine) (dt : DiffType) : Idle x (pushMinus x h dt) :=
+  ⟨rfl, fun hc => by show x.counter - 1 ≤ -4096; omega⟩
+theorem idle_pushPlus (x : M) (h : HLine) (dt : DiffType) : Idle x (pushPlus x h dt) := Idle.of_eq rfl rfl
+theorem idle_pushZero (x : M) (r : Row) (dt : DiffType) : Idle x (pushZero x r dt) :=
+  ⟨rfl, fun hc => by show x.counter - 1 ≤ -4096; omega⟩
+theorem idle_pushOther (x : M) (r : Row) : Idle x (pushOther x r) := Idle.of_eq rfl rfl
+theorem idle_flushMP (m : M) : Idle m (flushMP m) := Idle.of_eq (by simp) (by simp)
+
+theorem idle_hunkLinePush {cfg : Cfg} {m m' : M} {l : L} (e : hunkLinePush cfg m l = .ok m') : Idle m m' := by
+  have hf : Idle m (flushIfPlus m) := by
+    unfold flushIfPlus; split
+    · exact idle_flushMP m
+    · exact Idle.refl _
+  rw [hunkLinePush_eq] at e
+  repeat' split at e
+  all_goals first
+    | (cases e; done)
+    | (cases e; first
+        | exact hf.trans (idle_pushMinus ..)
+        | exact idle_pushPlus ..
+        | exact (idle_flushMP m).trans (idle_pushZero ..)
+        | exact (idle_flushMP m).trans (idle_pushOther ..))
+
+theorem idle_handleHunkLine {cfg : Cfg} {m m' : M} {l : L} {b : Bool}
+    (e : handleHunkLine cfg m l = .ok (b, m')) : Idle m m' := by
+  unfold handleHunkLine at e
+  split at e
+  · cases e; exact Idle.refl _
+  · split at e
+    · cases e
+    · rename_i m2 e2
+      split at e
+      · cases e
+      · rename_i m3 e3
+        cases e
+        exact (idle_hunkLinePre e2).trans ((idle_hunkLinePush e3).trans (Idle.of_eq rfl rfl))
+
+theorem idle_storeLine {cfg : Cfg} {m m' : M} {l : L} {c : MCCommit} {mp : MergeParents} {k : RowKind}
+    (e : storeLine cfg m l c mp k = .ok m') : Idle m m' := by
+  rw [storeLine_eq] at e
+  repeat' split at e
+  all_goals first | (cases e; done) | (cases e; exact Idle.of_eq rfl rfl)
+
+theorem idle_enterAncestral {m m' : M} {l : L} {mp : MergeParents} (e : enterAncestral m l mp = some m') : Idle m m' := by
+  unfold enterAncestral at e
+  simp only [Option.map_eq_some_iff] at e
+  obtain ⟨_, _, rfl⟩ := e
+  exact Idle.of_eq rfl rfl
+
+theorem idle_enterTheirs {m m' : M} {l : L} {mp : MergeParents} (e : enterTheirs m l mp = some m') : Idle m m' := by
+  unfold enterTheirs at e
+  split at e
+  · cases e; exact Idle.of_eq rfl rfl
+  · cases e
+
+theorem idle_exitMergeConflict {cfg : Cfg} {m m' : M} {l : L} {mp : MergeParents}
+    (e : exitMergeConflict cfg m l mp = some m') : Idle m m' := by
+  unfold exitMergeConflict at e
+  simp only [Option.map_eq_some_iff] at e
+  obtain ⟨_, _, rfl⟩ := e
+  exact Idle.of_eq (by simp) (by simp)
+
+theorem idle_storeOr {m : M} {o : Option M} {alt : Except String M} {b : Bool} {m' : M}
+    (e : storeOr o alt = .ok (b, m')) (ho : ∀ x, o = some x → Idle m x) (ha : ∀ x, alt = .ok x → Idle m x) :
+    Idle m m' := by
+  unfold storeOr at e
+  split at e
+  · cases e; exact ho _ rfl
+  · split at e
+    · cases e
+    · cases e; exact ha _ rfl
+
+theorem idle_handleMergeConflict {cfg : Cfg} {m m' : M} {l : L} {b : Bool}
+    (e : handleMergeConflict cfg m l = .ok (b, m')) : Idle m m' := by
+  unfold handleMergeConflict at e
+  split at e
+  · cases e; exact Idle.refl _
+  · split at e
+    · split at e
+      · cases e; exact Idle.of_eq (by simp) (by simp)
+      · cases e; exact Idle.refl _
+    · split at e
+      all_goals first
+        | (refine idle_storeOr e ?_ (fun x hx => idle_storeLine hx)
+           intro x hx
+           first
+             | (rcases orElse_some hx with h1 | h2
+                · exact idle_enterAncestral h1
+                · rcases orElse_some h2 with h3 | h4
+                  · exact idle_enterTheirs h3
+                  · exact idle_exitMergeConflict h4)
+             | (rcases orElse_some hx with h3 | h4
+                · exact idle_enterTheirs h3
+                · exact idle_exitMergeConflict h4)
+             | exact idle_exitMergeConflict hx)
+        | (cases e; exact Idle.refl _)
+
+theorem idle_handlerOf {name : String} {hd : Handler} (hn : handlerOf name = some hd)
+    {cfg : Cfg} {m m' : M} {l : L} {b : Bool} (e : hd cfg m l = .ok (b, m')) : Idle m m' := by
+  unfold handlerOf at hn
+  split at hn <;> first
+    | (cases hn
+       first
+         | exact idle_handleCommitMeta e | exact idle_handleDiffHeaderDiff e | exact idle_handleFileOperation e
+         | exact idle_handleMinusLine e | exact idle_handlePlusLine e | exact idle_handleHunkHeader e
+         | exact idle_handleModeLine e | exact idle_handleMisc e | exact idle_handleSubmoduleLog e
+         | exact idle_handleSubmoduleShort e | exact idle_handleMergeConflict e | exact idle_handleHunkLine e
+         | (first
+             | (unfold handleDiffStat at e; cases e; exact Idle.refl _)
+             | (unfold handleGitShowFile at e; cases e; exact Idle.of_eq rfl rfl)
+             | (unfold handleBlame at e; simp only at e; split at e <;> (cases e; exact Idle.of_eq (by simp) (by simp)))
+             | (unfold handleGrep at e; simp only at e; repeat' split at e
+                all_goals (cases e; exact Idle.of_eq (by simp) (by simp)))
+             | (unfold handleShouldSkip at e; cases e; exact Idle.refl _)
+             | (unfold handleEmitUnchanged at e; cases e; exact Idle.of_eq (by simp) (by simp))))
+    | cases hn
+
+theorem idle_chain {cfg : Cfg} {l : L} : ∀ (names : List String) {m m' : M},
+    chain cfg l names m = .ok m' → Idle m m'
+  | [], m, m', e => by simp only [chain] at e; cases e; exact Idle.refl _
+  | name :: rest, m, m', e => by
+    simp only [chain] at e
+    split at e
+    · cases e
+    · rename_i hd hn
+      split at e
+      · cases e
+      · rename_i m1 e1; cases e; exact idle_handlerOf hn e1
+      · rename_i m1 e1; exact (idle_handlerOf hn e1).trans (idle_chain rest e)
+
+/-- outside plain diffs the counter is idle -/
+def CounterIdle (m : M) : Prop := m.source ≠ .diffUnified → m.counter ≤ -4096
+
+theorem counterIdle_stepInit (m : M) (l : L) (h : CounterIdle m) : CounterIdle (stepInit m l) := by
+  unfold CounterIdle at *
+  unfold stepInit armCounter
+  simp only [Generated.Markers.prepareToCount]
+  split
+  · rename_i hu
+    split
+    · intro hne; exact absurd ‹_› hne
+    · intro _; exact h (by rw [hu]; decide)
+  · exact h
+
+theorem counterIdle_step {cfg : Cfg} {m m' : M} {l : L} (e : step cfg m l = .ok m') (h : CounterIdle m) :
+    CounterIdle m' := by
+  unfold step at e
+  split at e
+  · cases e
+  · rename_i m2 e2
+    cases e
+    have i := idle_chain _ e2
+    have h0 := counterIdle_stepInit m l h
+    intro hne
+    exact i.2 (h0 (by rw [← i.1]; exact hne))
+
+/-- `counter_idle`: in every reachable state whose source is not a plain diff the `--- ` counter is idle. -/
+theorem counter_idle {cfg : Cfg} : ∀ (ls : List L) {m m' : M}, runFrom cfg m ls = .ok m' → CounterIdle m → CounterIdle m'
+  | [], m, m', e, h => by simp only [runFrom] at e; cases e; exact h
+  | l :: ls, m, m', e, h => by
+    simp only [runFrom] at e
+    split at e
+    · cases e
+    · rename_i m1 e1; exact counter_idle ls e (counterIdle_step e1 h)
 
 end Machine
